@@ -20,7 +20,7 @@ func compileFunction(vm *r.VM, node *syntax.FunctionDeclareStmt) *value.Function
 		return evalExecBlock(vm, node.ExecBlock, params)
 	}
 
-	return value.NewFunction(mainLogicHandler)
+	return value.NewFunction(mainLogicHandler).SetModule(vm.GetCurrentModule())
 }
 
 // （显示：A、B、C），得到D
@@ -115,6 +115,12 @@ func execDirectFunction(vm *r.VM, funcName *r.IDName, params []r.Element) (r.Ele
 	fn, ok := elem.(*value.Function)
 	if !ok {
 		return nil, zerr.InvalidFuncVariable(funcName.GetLiteral())
+	}
+
+	// a method runs in the module that declares it, whatever name it is called by (an
+	// imported method held by a variable or an input of the importer)
+	if fnModule := fn.GetModule(); fnModule != nil {
+		module = fnModule
 	}
 
 	// pushCallFrame
